@@ -10,7 +10,7 @@
 (*          <<hook, name, k>> with k = ordinal of that instance per name;   *)
 (*   inst   the names in uod.command_instances (sorted);                    *)
 (*   execL  the names in the current command manager's cmd_executing;       *)
-(*   started, stopping, state (System State tag), err (engine error state). *)
+(*   started, stopping, paused, holding, state (System State tag), err.     *)
 (* The model is stepped with the same requests (CmdMgr!TickTo); the first   *)
 (* disagreement of a run is reported under the property that owns the       *)
 (* variable, later ticks of that run are not judged.                        *)
@@ -28,6 +28,7 @@ Hooks(q) == [i \in DOMAIN q |-> <<q[i][1], q[i][2], q[i][3]>>]
 Clauses(m, e) ==
     << <<"C06.lockstep-gating", m.acc = e.acc>>,
        <<"C06.lockstep-run-state", m.started = e.started /\ m.state = e.state>>,
+       <<"C06.lockstep-pause-hold-flags", m.paused = e.paused /\ m.holding = e.holding>>,
        <<"C10.lockstep-stopping", m.stopping = e.stopping>>,
        <<"C10.lockstep-instances", {n \in Uod : m.inst[n].rid # 0} = SetOfSeq(e.inst)>>,
        <<"C10.lockstep-executing-list", Names(m.execL) = e.execL>>,
